@@ -1,3 +1,353 @@
 import MgpuModel.C03V
+/-! # C03 (vector / memory half) — meaning lemmas of the ISA specification
+
+`MgpuModel/C03V_Int.lean` writes the per-lane semantics of the integer vector instructions in the
+bit-level style of the ISA manuals (wrap-around adds, masks, shifts, unsigned compares as carry
+detectors).  The theorems below state, for ALL operands, what each of those functions means in
+ordinary arithmetic on the operand values.  They are what makes the specification an independent
+reference rather than a second copy of the Go handlers: the Go code is compared (every run, on
+corner and random states, through the real decoder and the real `ALU.Run`) with functions that
+provably compute `(a+b) mod 2^32`, `⌊a·b / 2^32⌋`, the sign-extended bit field, … -/
 namespace C03V
+open C03V.I
+
+/-- V_ADD_CO_U32: the destination is the sum modulo 2^32 and the carry-out (VCC / SDST bit of the
+    lane) is set exactly when the true sum does not fit in 32 bits. -/
+theorem addCo_meaning (a b : W) :
+    (addCo a b).1.toNat = (a.toNat + b.toNat) % 2 ^ 32 ∧
+    (addCo a b).2 = decide (a.toNat + b.toNat ≥ 2 ^ 32) := by
+  have ha := a.isLt; have hb := b.isLt
+  constructor
+  · simp [addCo, BitVec.toNat_add]
+  · simp only [addCo, BitVec.ult, BitVec.toNat_add, decide_eq_decide]; omega
+example : addCo 0xFFFFFFFF#32 2#32 = (1#32, true) := by decide
+
+/-- V_SUB_CO_U32: difference modulo 2^32; the borrow-out is set exactly when S1 > S0. -/
+theorem subCo_meaning (a b : W) :
+    (subCo a b).1.toNat = (a.toNat + 2 ^ 32 - b.toNat) % 2 ^ 32 ∧
+    (subCo a b).2 = decide (a.toNat < b.toNat) := by
+  constructor
+  · simp only [subCo]; bv_omega
+  · simp [subCo, BitVec.ult]
+example : subCo 1#32 2#32 = (0xFFFFFFFF#32, true) := by decide
+
+/-- V_ADDC_CO_U32: sum with carry-in modulo 2^32; carry-out is the carry of the 33-bit sum. -/
+theorem addcCo_meaning (a b : W) (cin : Bool) :
+    (addcCo a b cin).1.toNat = (a.toNat + b.toNat + cin.toNat) % 2 ^ 32 ∧
+    (addcCo a b cin).2 = decide (a.toNat + b.toNat + cin.toNat ≥ 2 ^ 32) := by
+  have ha := a.isLt; have hb := b.isLt
+  cases cin
+  · constructor
+    · simp [addcCo, BitVec.toNat_add]
+    · simp [addcCo, BitVec.ult, BitVec.toNat_add]; omega
+  · constructor
+    · simp [addcCo, BitVec.toNat_add]
+    · simp [addcCo, BitVec.ult, BitVec.toNat_add]
+      apply Bool.eq_iff_iff.mpr; simp only [Bool.or_eq_true, decide_eq_true_eq]; omega
+example : addcCo 0xFFFFFFFF#32 0#32 true = (0#32, true) := by decide
+
+/-- V_SUBB_CO_U32: difference with borrow-in; borrow-out exactly when S1 + cin > S0. -/
+theorem subbCo_meaning (a b : W) (cin : Bool) :
+    (subbCo a b cin).1.toNat = (a.toNat + 2 ^ 33 - b.toNat - cin.toNat) % 2 ^ 32 ∧
+    (subbCo a b cin).2 = decide (a.toNat < b.toNat + cin.toNat) := by
+  have ha := a.isLt; have hb := b.isLt
+  cases cin
+  · constructor
+    · simp [subbCo, BitVec.toNat_sub]; omega
+    · simp [subbCo, BitVec.ult, BitVec.toNat_sub]
+  · constructor
+    · simp [subbCo, BitVec.toNat_sub]; omega
+    · simp [subbCo, BitVec.ult, BitVec.toNat_sub]
+      apply Bool.eq_iff_iff.mpr; simp only [Bool.or_eq_true, decide_eq_true_eq]; omega
+example : subbCo 5#32 5#32 true = (0xFFFFFFFF#32, true) := by decide
+
+/-- V_MUL_LO_U32: the product modulo 2^32. -/
+theorem mulLo_meaning (a b : W) : (mulLo a b).toNat = (a.toNat * b.toNat) % 2 ^ 32 := by
+  simp [mulLo, BitVec.toNat_mul]
+
+/-- V_MUL_HI_U32: the upper half of the 64-bit product, `⌊a·b / 2^32⌋`. -/
+theorem mulHiU_meaning (a b : W) : (mulHiU a b).toNat = a.toNat * b.toNat / 2 ^ 32 := by
+  have ha := a.isLt
+  have hb := b.isLt
+  have hp : a.toNat * b.toNat < 2 ^ 32 * 2 ^ 32 := Nat.mul_lt_mul'' ha hb
+  have h64 : a.toNat * b.toNat < 2 ^ 64 := by simpa using hp
+  simp only [mulHiU, BitVec.toNat_setWidth, BitVec.toNat_ushiftRight, BitVec.toNat_mul,
+    Nat.shiftRight_eq_div_pow]
+  have e1 : a.toNat % 2 ^ 64 = a.toNat := Nat.mod_eq_of_lt (by omega)
+  have e2 : b.toNat % 2 ^ 64 = b.toNat := Nat.mod_eq_of_lt (by omega)
+  rw [e1, e2, Nat.mod_eq_of_lt h64]
+  apply Nat.mod_eq_of_lt
+  exact (Nat.div_lt_iff_lt_mul (by decide)).mpr (by simpa using hp)
+example : mulHiU 0xFFFFFFFF#32 0xFFFFFFFF#32 = 0xFFFFFFFE#32 := by decide
+
+/-- V_MUL_U32_U24: only the low 24 bits of each source take part. -/
+theorem mulU24_meaning (a b : W) :
+    (mulU24 a b).toNat = ((a.toNat % 2 ^ 24) * (b.toNat % 2 ^ 24)) % 2 ^ 32 := by
+  have h : ∀ x : W, (zext24 x).toNat = x.toNat % 2 ^ 24 := by
+    intro x
+    simp only [zext24, BitVec.toNat_and]
+    exact Nat.and_two_pow_sub_one_eq_mod x.toNat 24
+  simp [mulU24, BitVec.toNat_mul, h]
+
+/-- V_MUL_I32_I24: the product of the sign-extended 24-bit fields, wrapped to 32 bits. -/
+theorem mulI24_meaning (a b : W) :
+    mulI24 a b = BitVec.ofInt 32 ((a.setWidth 24).toInt * (b.setWidth 24).toInt) := by
+  have h : ∀ x : W, sext24 x = BitVec.ofInt 32 (x.setWidth 24).toInt := by
+    intro x
+    simp only [sext24]
+    apply BitVec.eq_of_toInt_eq
+    rw [BitVec.toInt_signExtend_of_le (by decide), BitVec.toInt_ofInt]
+    have := BitVec.toInt_lt (x := x.setWidth 24)
+    have := BitVec.le_toInt (x := x.setWidth 24)
+    rw [Int.bmod_eq_of_le] <;> omega
+  simp only [mulI24, h]
+  exact (BitVec.ofInt_mul _ _).symm
+example : mulI24 0x00FFFFFF#32 2#32 = 0xFFFFFFFE#32 := by decide
+
+/-- V_LSHLREV_B32: the shift count is S0 modulo 32 (only 5 bits are used). -/
+theorem lshlrev_meaning (a b : W) :
+    (lshlrev a b).toNat = (b.toNat * 2 ^ (a.toNat % 32)) % 2 ^ 32 := by
+  have h : (a &&& 31#32).toNat = a.toNat % 32 := by
+    simp only [BitVec.toNat_and]
+    exact Nat.and_two_pow_sub_one_eq_mod a.toNat 5
+  simp only [lshlrev, BitVec.shiftLeft_eq', h, BitVec.toNat_shiftLeft, Nat.shiftLeft_eq]
+example : lshlrev 33#32 1#32 = 2#32 := by decide
+
+/-- V_LSHRREV_B32: logical shift by S0 modulo 32 = division by a power of two. -/
+theorem lshrrev_meaning (a b : W) : (lshrrev a b).toNat = b.toNat / 2 ^ (a.toNat % 32) := by
+  have h : (a &&& 31#32).toNat = a.toNat % 32 := by
+    simp only [BitVec.toNat_and]
+    exact Nat.and_two_pow_sub_one_eq_mod a.toNat 5
+  simp only [lshrrev, BitVec.ushiftRight_eq', h, BitVec.toNat_ushiftRight, Nat.shiftRight_eq_div_pow]
+example : lshrrev 32#32 0x80000000#32 = 0x80000000#32 := by decide
+
+/-- V_ASHRREV_I32: arithmetic shift = floor division of the SIGNED value by 2^(S0 mod 32). -/
+theorem ashrrev_meaning (a b : W) : (ashrrev a b).toInt = b.toInt / 2 ^ (a.toNat % 32) := by
+  have h : (a &&& 31#32).toNat = a.toNat % 32 := by
+    simp only [BitVec.toNat_and]
+    exact Nat.and_two_pow_sub_one_eq_mod a.toNat 5
+  simp only [ashrrev, h, BitVec.toInt_sshiftRight, Int.shiftRight_eq_div_pow]
+  norm_cast
+example : ashrrev 36#32 0x80000000#32 = 0xF8000000#32 := by decide
+
+/-- V_LSHLREV_B64 uses 6 bits of the count: a count of 64 shifts by 0. -/
+theorem lshlrev64_meaning (a : W) (b : D) :
+    (lshlrev64 a b).toNat = (b.toNat * 2 ^ (a.toNat % 64)) % 2 ^ 64 := by
+  have h : (a &&& 63#32).toNat = a.toNat % 64 := by
+    simp only [BitVec.toNat_and]
+    exact Nat.and_two_pow_sub_one_eq_mod a.toNat 6
+  simp only [lshlrev64, BitVec.shiftLeft_eq', h, BitVec.toNat_shiftLeft, Nat.shiftLeft_eq]
+example : lshlrev64 64#32 5#64 = 5#64 := by decide
+
+/-- V_ASHRREV_I64: floor division of the signed 64-bit value by 2^(S0 mod 64). -/
+theorem ashrrev64_meaning (a : W) (b : D) : (ashrrev64 a b).toInt = b.toInt / 2 ^ (a.toNat % 64) := by
+  have h : (a &&& 63#32).toNat = a.toNat % 64 := by
+    simp only [BitVec.toNat_and]
+    exact Nat.and_two_pow_sub_one_eq_mod a.toNat 6
+  simp only [ashrrev64, h, BitVec.toInt_sshiftRight, Int.shiftRight_eq_div_pow]
+  norm_cast
+
+/-- V_BFE_U32: the `width`-bit field starting at bit `offset` (both taken modulo 32). -/
+theorem bfeU_meaning (a off wd : W) :
+    (bfeU a off wd).toNat = (a.toNat / 2 ^ (off.toNat % 32)) % 2 ^ (wd.toNat % 32) := by
+  have ho : (off &&& 31#32).toNat = off.toNat % 32 := by
+    simp only [BitVec.toNat_and]
+    exact Nat.and_two_pow_sub_one_eq_mod off.toNat 5
+  have hw : (wd &&& 31#32).toNat = wd.toNat % 32 := by
+    simp only [BitVec.toNat_and]
+    exact Nat.and_two_pow_sub_one_eq_mod wd.toNat 5
+  have hlt : wd.toNat % 32 < 32 := Nat.mod_lt _ (by decide)
+  have hm : (maskW (wd.toNat % 32)).toNat = 2 ^ (wd.toNat % 32) - 1 := by
+    have hp : 2 ^ (wd.toNat % 32) < 2 ^ 32 := Nat.pow_lt_pow_right (by decide) hlt
+    have hpos : 0 < 2 ^ (wd.toNat % 32) := Nat.pow_pos (by decide)
+    simp only [maskW, BitVec.toNat_sub, BitVec.toNat_shiftLeft, BitVec.toNat_ofNat, Nat.shiftLeft_eq]
+    omega
+  simp only [bfeU, hw, BitVec.toNat_and, BitVec.ushiftRight_eq', ho, BitVec.toNat_ushiftRight,
+    Nat.shiftRight_eq_div_pow, hm]
+  exact Nat.and_two_pow_sub_one_eq_mod _ _
+example : bfeU 0x12345678#32 8#32 12#32 = 0x456#32 := by decide
+
+/-- bit i of the width-w mask is set exactly for i < w -/
+theorem maskW_bit (w i : Nat) (hw : w < 32) : (maskW w).getLsbD i = (decide (i < 32) && decide (i < w)) := by
+  have hp : 2 ^ w < 2 ^ 32 := Nat.pow_lt_pow_right (by decide) hw
+  have hpos : 0 < 2 ^ w := Nat.pow_pos (by decide)
+  have hm : maskW w = BitVec.ofNat 32 (2 ^ w - 1) := by
+    apply BitVec.eq_of_toNat_eq
+    simp only [maskW, BitVec.toNat_sub, BitVec.toNat_shiftLeft, BitVec.toNat_ofNat, Nat.shiftLeft_eq]
+    omega
+  rw [hm, BitVec.getLsbD_ofNat, Nat.testBit_two_pow_sub_one]
+
+/-- V_BFE_I32 sign-extends: bits below `width` are those of the (arithmetically) shifted source,
+    every bit from `width-1` upwards is a copy of bit `width-1` of the field. -/
+theorem bfeI_meaning (a off wd : W) (i : Nat) (hi : i < 32) (hw : wd.toNat % 32 ≠ 0) :
+    (bfeI a off wd).getLsbD i =
+      (a.sshiftRight (off.toNat % 32)).getLsbD (min i (wd.toNat % 32 - 1)) := by
+  have ho : (off &&& 31#32).toNat = off.toNat % 32 := by
+    simp only [BitVec.toNat_and]
+    exact Nat.and_two_pow_sub_one_eq_mod off.toNat 5
+  have hwd : (wd &&& 31#32).toNat = wd.toNat % 32 := by
+    simp only [BitVec.toNat_and]
+    exact Nat.and_two_pow_sub_one_eq_mod wd.toNat 5
+  have hlt : wd.toNat % 32 < 32 := Nat.mod_lt _ (by decide)
+  generalize hwv : wd.toNat % 32 = w at *
+  generalize hov : off.toNat % 32 = o at *
+  simp only [bfeI, hwd, ho]
+  have hne : (w == 0) = false := by simp [hw]
+  simp only [hne]
+  have hw1 : w - 1 < w := by omega
+  by_cases hs : ((a.sshiftRight o) &&& maskW w).getLsbD (w - 1)
+  · simp only [hs, if_true, Bool.false_eq_true, if_false]
+    simp only [BitVec.getLsbD_or, BitVec.getLsbD_and, BitVec.getLsbD_not, maskW_bit _ _ hlt, hi, decide_true, Bool.true_and]
+    simp only [BitVec.getLsbD_and, maskW_bit _ _ hlt] at hs
+    by_cases hiw : i < w
+    · have : min i (w - 1) = i := by omega
+      simp [hiw, this]
+    · have : min i (w - 1) = w - 1 := by omega
+      simp [hiw, this]
+      simp [hw1] at hs
+      exact hs.1.symm ▸ rfl
+  · simp only [hs, Bool.false_eq_true, if_false]
+    simp only [BitVec.getLsbD_and, maskW_bit _ _ hlt, hi, decide_true, Bool.true_and]
+    simp only [BitVec.getLsbD_and, maskW_bit _ _ hlt] at hs
+    by_cases hiw : i < w
+    · have : min i (w - 1) = i := by omega
+      simp [hiw, this]
+    · have : min i (w - 1) = w - 1 := by omega
+      simp [hiw, this]
+      simp [hw1] at hs
+      have h32 : w - 1 < 32 := by omega
+      have hb : (a.sshiftRight o).getLsbD (w - 1) = false := by
+        cases hc : (a.sshiftRight o).getLsbD (w - 1)
+        · rfl
+        · exfalso
+          have := hs (by simpa [BitVec.getLsbD_eq_getElem h32] using hc)
+          omega
+      simp [hb]
+example : bfeI 0x80000000#32 4#32 31#32 = 0xF8000000#32 ∧ bfeI 0x00000F00#32 8#32 4#32 = 0xFFFFFFFF#32 := by decide
+
+/-- V_BFI_B32: bitwise select — where the mask S0 has a 1 take S1's bit, else S2's bit. -/
+theorem bfi_meaning (a b c : W) (i : Nat) :
+    (bfi a b c).getLsbD i = if a.getLsbD i then b.getLsbD i else c.getLsbD i := by
+  by_cases h : i < 32
+  · simp only [bfi, BitVec.getLsbD_or, BitVec.getLsbD_and, BitVec.getLsbD_not, h, decide_true, Bool.true_and]
+    cases a.getLsbD i <;> simp
+  · have h' : 32 ≤ i := Nat.le_of_not_lt h
+    simp [bfi, BitVec.getLsbD_of_ge _ _ h']
+
+/-- V_ALIGNBIT_B32: the 64-bit value {S0,S1} shifted right by S2 mod 32, low dword. -/
+theorem alignbit_meaning (a b c : W) :
+    (alignbit a b c).toNat = ((a.toNat * 2 ^ 32 + b.toNat) / 2 ^ (c.toNat % 32)) % 2 ^ 32 := by
+  have h : (c &&& 31#32).toNat = c.toNat % 32 := by
+    simp only [BitVec.toNat_and]
+    exact Nat.and_two_pow_sub_one_eq_mod c.toNat 5
+  have hb := b.isLt
+  simp only [alignbit, h, BitVec.toNat_setWidth, BitVec.toNat_ushiftRight, BitVec.toNat_append,
+    Nat.shiftRight_eq_div_pow, Nat.shiftLeft_eq]
+  rw [Nat.mul_comm a.toNat, ← Nat.two_pow_add_eq_or_of_lt hb]
+example : alignbit 0x00000001#32 0x80000000#32 31#32 = 3#32 := by decide
+
+/-- unsigned / signed minimum and maximum are the arithmetic ones -/
+theorem minU_meaning (a b : W) : (minU a b).toNat = min a.toNat b.toNat := by
+  simp only [minU, BitVec.ult]; split <;> rename_i h <;> simp at h <;> omega
+theorem maxU_meaning (a b : W) : (maxU a b).toNat = max a.toNat b.toNat := by
+  simp only [maxU, BitVec.ult]; split <;> rename_i h <;> simp at h <;> omega
+theorem minI_meaning (a b : W) : (minI a b).toInt = min a.toInt b.toInt := by
+  simp only [minI, BitVec.slt]; split <;> rename_i h <;> simp at h <;> omega
+theorem maxI_meaning (a b : W) : (maxI a b).toInt = max a.toInt b.toInt := by
+  simp only [maxI, BitVec.slt]; split <;> rename_i h <;> simp at h <;> omega
+
+/-- V_MED3_U32 returns the middle element: together with min3 and max3 it accounts for the three
+    operands (so it is the median also when operands are equal). -/
+theorem med3U_meaning (a b c : W) :
+    (med3U a b c).toNat + (min3U a b c).toNat + (max3U a b c).toNat = a.toNat + b.toNat + c.toNat := by
+  simp only [med3U, min3U, max3U, maxU_meaning, minU_meaning]
+  omega
+theorem med3I_meaning (a b c : W) :
+    (med3I a b c).toInt + (min3I a b c).toInt + (max3I a b c).toInt = a.toInt + b.toInt + c.toInt := by
+  simp only [med3I, min3I, max3I, maxI_meaning, minI_meaning]
+  omega
+example : med3U 0x40#32 0x55555555#32 0x55555555#32 = 0x55555555#32 := by decide
+
+/-- integer compares decide the arithmetic relation on the unsigned / signed values -/
+theorem cmpU_lt_meaning {n : Nat} (a b : BitVec n) : cmpU 1 a b = decide (a.toNat < b.toNat) := by
+  simp [cmpU, cmpOp, BitVec.ult]
+theorem cmpU_ge_meaning {n : Nat} (a b : BitVec n) : cmpU 6 a b = decide (a.toNat ≥ b.toNat) := by
+  simp only [cmpU, cmpOp, BitVec.ult]
+  by_cases h : a.toNat < b.toNat <;> simp [h] <;> omega
+theorem cmpI_lt_meaning {n : Nat} (a b : BitVec n) : cmpI 1 a b = decide (a.toInt < b.toInt) := by
+  simp [cmpI, cmpOp, BitVec.slt]
+theorem cmpI_le_meaning {n : Nat} (a b : BitVec n) : cmpI 3 a b = decide (a.toInt ≤ b.toInt) := by
+  simp only [cmpI, cmpOp, BitVec.slt]
+  apply Bool.eq_iff_iff.mpr
+  simp only [Bool.or_eq_true, decide_eq_true_eq, beq_iff_eq]
+  constructor
+  · rintro (h | h)
+    · omega
+    · subst h; omega
+  · intro h
+    by_cases e : a = b
+    · right; exact e
+    · left
+      have : a.toInt ≠ b.toInt := fun e' => e (BitVec.eq_of_toInt_eq e')
+      omega
+example : cmpI 1 0xFFFFFFFF#32 0#32 = true ∧ cmpU 1 0xFFFFFFFF#32 0#32 = false := by decide
+
+/-- SDWA source selection BYTE_k / WORD_k without sign extension is the k-th byte / word. -/
+theorem sdwaSrc_byte (x : W) (k : Nat) (hk : k < 4) :
+    (sdwaSrc x k false).toNat = (x.toNat / 2 ^ (8 * k)) % 256 := by
+  have : k = 0 ∨ k = 1 ∨ k = 2 ∨ k = 3 := by omega
+  rcases this with h | h | h | h <;> subst h <;>
+    simp [sdwaSrc, BitVec.toNat_setWidth, BitVec.toNat_ushiftRight, Nat.shiftRight_eq_div_pow] <;> omega
+theorem sdwaSrc_word (x : W) (k : Nat) (hk : k < 2) :
+    (sdwaSrc x (4 + k) false).toNat = (x.toNat / 2 ^ (16 * k)) % 65536 := by
+  have : k = 0 ∨ k = 1 := by omega
+  rcases this with h | h <;> subst h <;>
+    simp [sdwaSrc, BitVec.toNat_setWidth, BitVec.toNat_ushiftRight, Nat.shiftRight_eq_div_pow] <;> omega
+/-- SDWA DWORD destination selection writes the whole result. -/
+theorem sdwaDst_dword (old new : W) : sdwaDst old new 6 0 = new := by
+  have h : (4294967295#32 : W) = BitVec.allOnes 32 := by decide
+  simp only [sdwaDst, sdwaMask, sdwaShift]
+  simp only [BitVec.shiftLeft_zero]
+  rw [h, BitVec.and_allOnes]
+/-- SDWA UNUSED_PRESERVE keeps every bit of the old destination outside the selected field. -/
+theorem sdwaDst_preserve (old new : W) (sel : Nat) :
+    (sdwaDst old new sel 2) &&& ~~~ sdwaMask sel = old &&& ~~~ sdwaMask sel := by
+  simp only [sdwaDst]
+  ext i hi
+  simp only [BitVec.getElem_and, BitVec.getElem_or, BitVec.getElem_not]
+  cases (sdwaMask sel)[i] <;> simp
+example : sdwaDst 0xDEB9A276#32 0#32 0 2 = 0xDEB9A200#32 := by decide
+
+/-- sub-dword loads: zero extension keeps the value, sign extension adds 2^32 - 2^(8n) exactly
+    when the top bit of the loaded field is set (two's complement of the n-byte value). -/
+theorem extend_zero (n v : Nat) : extend n false v = v % 2 ^ (8 * n) := by
+  simp [extend]
+theorem extend_sign_byte (v : Nat) :
+    (BitVec.ofNat 32 (extend 1 true v)).toInt = (BitVec.ofNat 8 v).toInt := by
+  have h : v % 256 < 256 := Nat.mod_lt _ (by decide)
+  simp only [extend]
+  by_cases hs : v % 2 ^ (8 * 1) ≥ 2 ^ (8 * 1 - 1)
+  · simp only [hs, Bool.true_and, decide_true, if_true]
+    simp only [BitVec.toInt, BitVec.toNat_ofNat]
+    simp at hs ⊢
+    omega
+  · simp only [hs, Bool.true_and, decide_false]
+    simp only [BitVec.toInt, BitVec.toNat_ofNat]
+    simp at hs ⊢
+    omega
+example : extend 1 true 0x80 = 0xFFFFFF80 ∧ extend 2 false 0x1FFFF = 0xFFFF := by decide
+
+/-- DS two-offset forms scale each 8-bit offset by the element size (4 for b32, 8 for b64). -/
+theorem ds2Addr_scaled (base off : Nat) :
+    ds2Addr base off 4 = (base + 4 * off) % 2 ^ 32 ∧ ds2Addr base off 8 = (base + 8 * off) % 2 ^ 32 := by
+  simp [ds2Addr, Nat.mul_comm]
+example : ds2Addr 0x100 3 8 = 0x118 := by decide
+
+/-- the 13-bit GLOBAL/SCRATCH instruction offset is a signed value congruent to the field -/
+theorem sext13_meaning (o : Nat) :
+    -4096 ≤ sext13 o ∧ sext13 o < 4096 ∧ (sext13 o - (o % 8192 : Int)) % 8192 = 0 := by
+  simp only [sext13]
+  split <;> omega
+example : sext13 0x1FFC = -4 := by decide
+
 end C03V
